@@ -79,7 +79,8 @@ def eval_case(case):
         if k > 0:
             _, nxt = out[lane * per + 1].split(' ')
             for j in range(n_io, len(nxt)):
-                if cap[j] == '-': continue
+                # a state element with open data pin ('-': nothing captured) is compared too: the specification (KV.nextStateFrom,
+                # C01.nextState_is_spec) says it takes constant 0
                 got = int(s0[j, lane]) & 1
                 if got != int(nxt[j]):
                     return False, {'lane': lane, 's_node': j, 'state_after_cycles': int(s0[j, lane])}, {'state': int(nxt[j])}
@@ -108,7 +109,10 @@ def make_case(rng, c, thorough):
 def corr_and_oracle(ck, n_circuits, thorough=False):
     rng = ck.rng
     for it in range(n_circuits):
-        c = circ.rand_circuit(rng, n_gates=rng.randint(1, 25 if not thorough else 80))
+        if it % 5 == 4:     # sequential corner cases in the ORACLE stream: open data pins (capture constant 0), capture-only and toggle flip-flops
+            c = seq_circuit(rng, n_gates=rng.randint(1, 15))
+        else:
+            c = circ.rand_circuit(rng, n_gates=rng.randint(1, 25 if not thorough else 80))
         d = circ.describe(c)
         dump = circ.dump_net(c)
         # correspondence of the SimOps model (all option tuples)
@@ -149,7 +153,9 @@ def corr_and_oracle(ck, n_circuits, thorough=False):
                 sample={'net': dump, 'sims': len(case['stim'][0]), 'strip': case['strip'], 'reuse': case['reuse'],
                         'path': case['path'], 'cycles': case['cycles']},
                 tag=[f"path:{case['path']}", f"cycles:{case['cycles']}", f"strip:{case['strip']}", f"reuse:{case['reuse']}",
-                     f"ff:{min(d['ff'], 3)}", f"unconn:{min(d['unconnected_pins'], 3)}", f"sims:{len(case['stim'][0])}"])
+                     f"ff:{min(d['ff'], 3)}", f"unconn:{min(d['unconnected_pins'], 3)}", f"sims:{len(case['stim'][0])}"] +
+                    (['open-data-pin-state-element'] if any(('dff' in n.kind.lower() or 'latch' in n.kind.lower()) and
+                                                            (len(n.ins) == 0 or n.ins[0] is None) for n in c.nodes) else []))
         if not ok:
             cls = 'inject-cb' if (case['path'] == 'cb' and obs and 'raised' in obs) else 'logic2'
             ck.violation(cls, 'LogicSim(m=2) result differs from gate-by-gate evaluation of the netlist', case, obs, exp)
